@@ -872,6 +872,10 @@ class Interp:
       r = _np_scalar(fname.split('.', 1)[1], args)
       if r is not _NO:
         return r
+    if fname in ('np.array', 'np.asarray', 'numpy.array', 'numpy.asarray') and len(args) == 1 and set(kwargs) == {'dtype'} \
+        and isinstance(args[0], (list, tuple)) and all(isinstance(x, int) and not isinstance(x, bool) for x in args[0]) \
+        and isinstance(kwargs['dtype'], Ext) and kwargs['dtype'].name in ('np.int32', 'np.int64'):
+      return NdArr((len(args[0]),), list(args[0]), 'i')   # a shape / axis vector
     if fname in ('np.array', 'np.asarray', 'numpy.array', 'numpy.asarray') and args and not kwargs:
       if isinstance(args[0], list) and args[0] and all(isinstance(x, (int, float)) and not isinstance(x, bool) for x in args[0]):
         return NpVec(args[0])  # a fresh numeric vector (np.array copies)
@@ -895,6 +899,8 @@ class Interp:
       return out
     if fname in self.hooks:
       return self.hooks[fname](args, kwargs)
+    if fname in ('cast', 'typing.cast') and len(args) == 2 and 'cast' not in env:
+      return args[1]
     if _root_name(node.func) not in env and isinstance(
         node.func, (ast.Name, ast.Attribute)):
       s = self.repo.resolve_expr(module, node.func)
